@@ -16,8 +16,9 @@ class Probe:
 
 
 class ConstProbes:
-    def __init__(self, schema, rmsgs):
+    def __init__(self, schema, rmsgs, bytes_=("char", "const char")):
         self.s, self.rmsgs = schema, rmsgs
+        self.bytes = bytes_    # (mutable byte type, read-only byte type)
         self.n = walk.Names(schema)
         self.aliases = []      # (name, c++ type expr) in dependency order, per byte type suffix
         self.probes = []
@@ -145,7 +146,7 @@ class ConstProbes:
 
     def build(self):
         for rm in self.rmsgs:
-            mm, mc = self.alias("M_" + rm.name, self.n.msg_class(rm, "char"), self.n.msg_class(rm, "const char"))
+            mm, mc = self.alias("M_" + rm.name, self.n.msg_class(rm, self.bytes[0]), self.n.msg_class(rm, self.bytes[1]))
             self.add("fill_message_header", "fill_message_header(%s)" % rm.name, mm, mc, "::sbepp::fill_message_header(V())")
             self.add("message:header-setter", "get_header(%s).blockLength(x)" % rm.name, mm, mc,
                      "::sbepp::get_header(V()).blockLength(std::declval<typename std::decay<decltype(::sbepp::get_header(std::declval<%s>()).blockLength())>::type>())" % mm)
@@ -153,10 +154,10 @@ class ConstProbes:
         return self
 
 
-def stage1_source(schema, rmsgs, top_header):
-    cp = ConstProbes(schema, rmsgs).build()
+def stage1_source(schema, rmsgs, top_header, bytes_=("char", "const char")):
+    cp = ConstProbes(schema, rmsgs, bytes_).build()
     out = ['#include <%s>' % top_header, '#include <string>', '#include <cstdio>', '#include <initializer_list>', '#include <type_traits>',
-           'using CUR_m = ::sbepp::cursor<char>; using CUR_c = ::sbepp::cursor<const char>;']
+           'using CUR_m = ::sbepp::cursor<%s>; using CUR_c = ::sbepp::cursor<%s>;' % bytes_]
     for name, expr in cp.aliases:
         out.append('using %s = %s;' % (name, expr))
     out.append('#define V() std::declval<V_>()')
@@ -199,7 +200,7 @@ def stage2_source(schema, top_header, cp, probe, combo):
     v = probe.vc if combo.startswith("const") else probe.vm
     c = "CUR_c" if combo.endswith("const-cursor") else "CUR_m"
     out = ['#include <%s>' % top_header, '#include <string>', '#include <initializer_list>',
-           'using CUR_m = ::sbepp::cursor<char>; using CUR_c = ::sbepp::cursor<const char>;']
+           'using CUR_m = ::sbepp::cursor<%s>; using CUR_c = ::sbepp::cursor<%s>;' % cp.bytes]
     for name, expr in cp.aliases:
         out.append('using %s = %s;' % (name, expr))
     expr = probe.expr.replace("typename V::", "typename V_::").replace("byte_type_t<V>", "byte_type_t<V_>")
@@ -214,7 +215,7 @@ def stage2_source(schema, top_header, cp, probe, combo):
 def stage2_batch_source(schema, top_header, cp, flagged):
     """all flagged probes as real calls, one per line; -> (text, {line number: (probe, combo)})"""
     out = ['#include <%s>' % top_header, '#include <string>', '#include <initializer_list>',
-           'using CUR_m = ::sbepp::cursor<char>; using CUR_c = ::sbepp::cursor<const char>;']
+           'using CUR_m = ::sbepp::cursor<%s>; using CUR_c = ::sbepp::cursor<%s>;' % cp.bytes]
     for name, expr in cp.aliases:
         out.append('using %s = %s;' % (name, expr))
     out.append('template<class T> T& make();')
